@@ -4,6 +4,8 @@ package ha
 
 import (
 	"errors"
+	"net/http"
+	"sync/atomic"
 	"time"
 )
 
@@ -56,3 +58,53 @@ func (m *HealthMonitor) VerifRecordFailure() {
 func (m *HealthMonitor) VerifRecordSuccess() {
 	m.recordSuccess(time.Millisecond, "partner", RoleActive, 0)
 }
+
+// ---- HASyncer (message layer) ----
+
+// VerifBroadcastOne performs what one iteration of broadcastLoop does with a pending change:
+// takes the oldest queued change (if any) and hands it to broadcastToClients. Returns the message
+// taken, nil when the queue was empty.
+func (s *HASyncer) VerifBroadcastOne() *SyncMessage {
+	select {
+	case msg := <-s.pendingChanges:
+		s.broadcastToClients(msg)
+		return msg
+	default:
+		return nil
+	}
+}
+
+// VerifBroadcastHeartbeat performs the heartbeat branch of broadcastLoop.
+func (s *HASyncer) VerifBroadcastHeartbeat() {
+	s.broadcastToClients(&SyncMessage{
+		Type:        SyncTypeHeartbeat,
+		Timestamp:   time.Now(),
+		SequenceNum: atomic.LoadUint64(&s.sequenceNum),
+		NodeID:      s.config.NodeID,
+	})
+}
+
+// VerifQueues reports length and capacity of the pending-change queue and the summed length /
+// capacity of the connected SSE client channels.
+func (s *HASyncer) VerifQueues() (pendLen, pendCap, clients, clientLen, clientCap int) {
+	s.sseClientsMu.RLock()
+	defer s.sseClientsMu.RUnlock()
+	for _, ch := range s.sseClients {
+		clients++
+		clientLen += len(ch)
+		clientCap += cap(ch)
+	}
+	return len(s.pendingChanges), cap(s.pendingChanges), clients, clientLen, clientCap
+}
+
+// VerifHandleGetSessions / VerifHandleSessionStream expose the active node's HTTP handlers.
+func (s *HASyncer) VerifHandleGetSessions(w http.ResponseWriter, r *http.Request) {
+	s.handleGetSessions(w, r)
+}
+func (s *HASyncer) VerifHandleSessionStream(w http.ResponseWriter, r *http.Request) {
+	s.handleSessionStream(w, r)
+}
+
+// VerifPerformFullSync / VerifHandleSSEData expose the standby's two message-layer entry points.
+func (s *HASyncer) VerifPerformFullSync() error          { return s.performFullSync() }
+func (s *HASyncer) VerifHandleSSEData(data []byte) error { return s.handleSSEData(data) }
